@@ -162,6 +162,18 @@ class C02(Check):
             bra, bdec = gen.xyz_to_radec(pts)
             cols["ra"][:m] = (np.rad2deg(bra) if case["degrees"] else bra).astype(cols["ra"].dtype)
             cols["dec"][:m] = (np.rad2deg(bdec) if case["degrees"] else bdec).astype(cols["dec"].dtype)
+        conv = case_bits(case, "ra-convention") % 3
+        if conv and source != "random":
+            # the same sky in the (-180, 180] convention (conv 1) or with some right ascensions given one turn
+            # higher (conv 2): coordinates are stored as given, whatever the convention
+            turn = 360.0 if case["degrees"] else 2 * np.pi
+            ra = cols["ra"].astype("f8")
+            if conv == 1:
+                ra = np.where(ra > turn / 2, ra - turn, ra)
+            else:
+                ra[:: 5] += turn
+                ra[0] = turn
+            cols["ra"] = ra.astype(cols["ra"].dtype)
         ra_rad = np.deg2rad(cols["ra"].astype("f8")) if case["degrees"] else cols["ra"].astype("f8")
         dec_rad = np.deg2rad(cols["dec"].astype("f8")) if case["degrees"] else cols["dec"].astype("f8")
         xyz = gen.radec_to_xyz(ra_rad, dec_rad)
